@@ -98,11 +98,22 @@ InWindow(t, P, now) == LET until == PeriodOf(t, now)
 Shown(B, t, fs, win, now) ==
   [e \in {x \in DOMAIN B : /\ (fs = <<>> \/ x[3] \in ToSet(fs))
                             /\ (~win \/ InWindow(t, x[2], now))} |-> B[e]]
+\* A disk-only scan returns the file's cells exactly.  A memstore-inclusive
+\* scan merges file and memstore columns and may drop a column that lies
+\* wholly before now - retention (seq.go:348-352), so cells of expired periods
+\* may be missing from its result, wholly or in the part that came from one of
+\* the two stores; everything it returns is stored, and every live cell is
+\* returned with its exact contents.
 TQueryResult ==
   /\ IsEv("QueryResult")
-  /\ LET q == qs[Line.t]
-     IN ObsBag(Line.rows) =
-          Observable(Shown(IF Line.mem THEN q.mem ELSE q.disk, Line.t, Line.fields, Line.win, q.clock))
+  /\ LET q   == qs[Line.t]
+         M   == Observable(Shown(IF Line.mem THEN q.mem ELSE q.disk, Line.t, Line.fields, Line.win, q.clock))
+         obs == ObsBag(Line.rows)
+     IN IF Line.mem
+        THEN /\ \A o \in DOMAIN obs : /\ o \in DOMAIN M /\ obs[o] <= M[o]
+                                        /\ Live(Line.t, o[2], q.clock) => obs[o] = M[o]
+             /\ \A e \in DOMAIN M : Live(Line.t, e[2], q.clock) => e \in DOMAIN obs
+        ELSE obs = M
   /\ UNCHANGED <<vars, qs, scn, fails>>
 
 Normal ==
@@ -114,9 +125,19 @@ Normal ==
 \* the specification cannot take line l: remember where, skip to the next scenario
 NextReset == LET S == {j \in (l + 1)..Len(Trace) : Trace[j].a = "Reset"}
              IN IF S = {} THEN Len(Trace) + 1 ELSE Min(S)
+\* diagnostics for a line that cannot be taken: for a query result, the cells
+\* the specification has for it
+StuckInfo ==
+  IF Line.a = "QueryResult"
+  THEN LET q == qs[Line.t]
+           M == Observable(Shown(IF Line.mem THEN q.mem ELSE q.disk, Line.t, Line.fields, Line.win, q.clock))
+       IN [at |-> l, clock |-> q.clock, model |-> {<<e, M[e]>> : e \in DOMAIN M}]
+  ELSE [at |-> l, clock |-> clock, rd |-> rd, pend |-> pend, pc |-> [t \in Tables |-> fl[t].pc],
+        off |-> [t \in Tables |-> mem[t].off]]
 TSkip ==
   /\ l <= Len(Trace)
   /\ ~ENABLED Normal
+  /\ PrintT(<<"ZVSTUCK", ToJson(StuckInfo)>>)
   /\ fails' = fails \cup {[scn |-> scn, at |-> l]}
   /\ l' = NextReset
   /\ UNCHANGED <<vars, qs, scn>>
@@ -139,6 +160,12 @@ BadOf(inv) ==
                 : t \in Tables}
     [] inv = "AtMostOnce" -> IF AtMostOnce THEN {} ELSE {<<"*", 0>>}
     [] inv = "OffsetsOrdered" -> IF OffsetsOrdered THEN {} ELSE {<<"*", 0>>}
+    [] inv = "NoExpiredInTruncatedFile" ->
+         UNION {IF Newest(t) = 0 \/ ~disk[t][Newest(t)].trunc THEN {}
+                ELSE {<<t, e[4]>> : e \in {x \in DOMAIN disk[t][Newest(t)].cells :
+                                               ~Live(t, x[2], disk[t][Newest(t)].now)}}
+                : t \in Tables}
+    [] OTHER -> {}
 \* recorded in every state in which a predicate is false (the report keeps
 \* the first line per scenario and predicate)
 NewViol == IF UNCHANGED vars THEN {}      \* queries and observations change nothing
